@@ -334,6 +334,8 @@ func (m *ImplLib) Exec(line string) (obs string) {
 			return "harness-error " + err.Error()
 		}
 		return "ok " + canonHash(hdr, b)
+	case "gwfetch", "gwmeta":
+		return m.execGw(tk)
 	case "diskhex":
 		b, err := ioutil.ReadFile(m.path)
 		if err != nil {
